@@ -32,6 +32,7 @@ Step ==
   /\ LET e == Traces[tid][l] IN
        (CASE e.op = "Dump" -> DumpOK(e)
           [] e.op = "ForeignLoad" -> ForeignLoadOK(e)
+          [] e.op = "CorpusInvariant" -> (e.orthonormal /\ e.nelec_ok)      \* orbitals of any program's file: orthonormal, right electron count
           [] e.op = "Vendor" -> VendorOK(e)) = TRUE
   /\ l' = l + 1 /\ UNCHANGED tid
   /\ TLCSet(tid, IF TLCGet(tid) < l THEN l ELSE TLCGet(tid))
